@@ -44,6 +44,9 @@ pub struct Shared {
     pub reenter_next: Mutex<Vec<u32>>,
     /// Fault: the next recorder entry point sleeps this many nanoseconds of virtual time inside.
     pub sleep_inside_ns: AtomicU64,
+    /// Fault: the next recorder entry point passes this many scheduling points inside (a call
+    /// that is long in steps, not in time: whoever polls for its end polls that often).
+    pub busy_inside: AtomicU64,
 }
 
 /// Payload of an injected recorder panic.
@@ -81,6 +84,7 @@ impl Shared {
             panic_next: Mutex::new(vec![]),
             reenter_next: Mutex::new(vec![]),
             sleep_inside_ns: AtomicU64::new(0),
+            busy_inside: AtomicU64::new(0),
         })
     }
 }
@@ -111,6 +115,10 @@ impl LogRecorder {
         let ns = self.shared.sleep_inside_ns.swap(0, Ordering::SeqCst);
         if ns > 0 {
             dsim::sleep(ns);
+        }
+        let busy = self.shared.busy_inside.swap(0, Ordering::SeqCst);
+        for _ in 0..busy {
+            dsim::point("double.busy");
         }
     }
     fn leave(&self) {
